@@ -172,8 +172,10 @@ def build_py_case(spec):
     src2, occs2, sl2 = P.render(tree)
     if src2.count("\n") != src.count("\n"):
         return None
+    import_bound = any(isinstance(c, dict) and c.get("t") in ("import", "from") for c, f in e["edits"])
     return {"kind": "meta", "lang": "python", "files": {"a.py": src}, "renamed": {"a.py": src2},
-            "rename": {"name": e["name"], "fresh": FRESH, "scope": where}}
+            "rename": {"name": e["name"], "fresh": FRESH, "scope": where,
+                       "decl_kind": "import-bound-name" if import_bound else where[0]}}
 
 
 # ---------------------------------------------------------------------------------------------
